@@ -3,6 +3,7 @@ package main
 // C17 — declared struct types are enforced on every write.
 
 import (
+	"go/constant"
 	"go/token"
 	"go/types"
 
@@ -196,7 +197,27 @@ func checkC17(c *Ctx) {
 								return false
 							}
 							callee := call.Call.StaticCallee()
-							return callee != nil && fnPkgPath(callee) == "strings" && callee.Name() == "HasPrefix"
+							if callee == nil || fnPkgPath(callee) != "strings" || callee.Name() != "HasPrefix" || len(call.Call.Args) != 2 {
+								return false
+							}
+							// the exception is exactly: observed type is the empty slice "[]" and the declared name starts with "[]"
+							isEmptySliceName := func(v ssa.Value) bool {
+								k, ok := v.(*ssa.Const)
+								return ok && k.Value != nil && k.Value.Kind() == constant.String && constant.StringVal(k.Value) == "[]"
+							}
+							if !isEmptySliceName(call.Call.Args[1]) {
+								return false
+							}
+							return guardedBy(x, func(cond ssa.Value) (bool, bool) {
+								bo, ok := cond.(*ssa.BinOp)
+								if !ok || (bo.Op != token.EQL && bo.Op != token.NEQ) {
+									return false, false
+								}
+								if !isEmptySliceName(bo.Y) && !isEmptySliceName(bo.X) {
+									return false, false
+								}
+								return true, bo.Op == token.EQL
+							})
 						}
 						seen := map[*ssa.BasicBlock]bool{b.Succs[0]: true}
 						work := []*ssa.BasicBlock{b.Succs[0]}
@@ -227,6 +248,39 @@ func checkC17(c *Ctx) {
 		}
 		if nMiss != 1 || nMismatch != 1 {
 			c.undecided("C17-CMP", "SexpHash.TypeCheckField", "shape", tcf.Pos(), "expected one declared-field lookup and one type inequality test")
+		}
+	}
+
+	// ---- C17-DECL: a struct type is never registered without its definition
+	if sb := c.mustFn("C17-DECL", "StructBuilder"); sb != nil {
+		reg := c.fn("GoStructRegistryType.RegisterUserdef")
+		defn := c.field("RegisteredType", "UserStructDefn")
+		n := 0
+		if reg != nil && defn != nil {
+			for _, ci := range callsOf(sb, reg) {
+				n++
+				rt := ci.Common().Args[1]
+				has := false
+				eachInstr(sb, func(b *ssa.BasicBlock, i int, in ssa.Instruction) {
+					st, ok := in.(*ssa.Store)
+					if !ok {
+						return
+					}
+					fa, ok := st.Addr.(*ssa.FieldAddr)
+					if !ok || faField(fa) != defn || fa.X != rt || isNilConst(st.Val) {
+						return
+					}
+					if dominatesInstr(st, ci.(ssa.Instruction)) {
+						has = true
+					}
+				})
+				c.check(has, "C17-DECL", "StructBuilder", "registered with its definition", ci.Pos(),
+					"the type put into the registry already carries its field definitions",
+					"a struct type is put into the global registry without a definition: if the declaration then fails (a bad field), the placeholder stays, TypeCheckField finds no definition for records of that name and accepts every field and value")
+			}
+		}
+		if n < 2 {
+			c.undecided("C17-DECL", "StructBuilder", "registered with its definition", sb.Pos(), "fewer registrations than confirmed by reading (placeholder and final)")
 		}
 	}
 
